@@ -223,7 +223,7 @@ Inductive js :=
 | WBool (b : bool)                             (* new Boolean(..) *)
 | Arr (l : list js)
 | Obj (m : list (list Z * js))
-| ToJ (k : Z) (inner : js)   (* object whose only own property is a toJSON method: k=0 returns inner, 1 the key, 2 undefined, 3 typeof this.toJSON *)
+| ToJ (k : Z) (inner : js)   (* object whose only own property is a toJSON method: k=0 returns inner, 1 the key, 2 undefined, 3 typeof this.toJSON; 4: a Date, inherited method returning inner *)
 | Cyc (is_arr : bool).
 
 (* replacer: none, one of a family of functions, or a property list *)
@@ -236,7 +236,7 @@ Definition es5 : flags := Build_flags false false false false false.
 Definition otto : flags := Build_flags true true true true true.
 
 (* replacer functions of the family (key, value) -> value *)
-Definition rep_fun (id : Z) (key : list Z) (v : js) : js :=
+Definition rep_fun (id : Z) (inarr : bool) (key : list Z) (v : js) : js :=
   if id =? 0 then v
   else if id =? 1 then match v with Num _ _ _ => Str [78] | _ => v end                 (* numbers -> "N" *)
   else if id =? 2 then if key_eqb key [97] then Undef else v                           (* drop key "a" *)
@@ -247,6 +247,18 @@ Definition rep_fun (id : Z) (key : list Z) (v : js) : js :=
                        then Arr [Num 4607182418800017408 [49] 1; Arr [Num 4611686018427387904 [50] 1]] else v
   else if id =? 8 then match v with Num b d n => WNum b d n | Bool b => WBool b | _ => v end   (* primitives -> wrapper objects *)
   else if id =? 9 then if key_eqb key [99] then Cyc false else v                          (* key "c" -> the holder: a cycle *)
+  else if id =? 10 then match v with Undef => Str [85] | _ => v end                       (* undefined -> "U" *)
+  else if id =? 11 then match v with Fun => Str [70] | _ => v end                         (* functions -> "F" *)
+  else if id =? 12 then match v with Null | Str _ => Undef | _ => v end                   (* null and strings -> undefined *)
+  else if id =? 13 then                                  (* call log in the text: key:typeof value:holder kind *)
+    let tag (t : list Z) := Str (key ++ 58 :: t ++ 58 :: [if inarr then 65 else 79]) in
+    match v with
+    | Undef => tag [117; 110; 100; 101; 102; 105; 110; 101; 100]
+    | Fun => tag [102; 117; 110; 99; 116; 105; 111; 110]
+    | Null => tag [111; 98; 106; 101; 99; 116]
+    | Bool _ => tag [98; 111; 111; 108; 101; 97; 110]
+    | _ => v
+    end
   else v.
 
 (* 15.12.3 step 4.b: the property list K *)
@@ -334,37 +346,40 @@ Definition own_keys (fl : flags) (m : list (list Z * js)) : list (list Z) :=
 
 (* [called]: the value is the result of a toJSON call (toJSON is not applied again) *)
 Fixpoint str_walk (fl : flags) (rep : replacer) (plist : option (list (list Z))) (fuel : nat)
-         (called : bool) (key : list Z) (v : js) {struct fuel} : dres :=
+         (called : bool) (inarr : bool) (key : list Z) (v : js) {struct fuel} : dres :=
   match fuel with
   | O => DErr 97
   | S f =>
       (* 1-2: toJSON *)
       match (if called then None else match v with ToJ k inner => Some (k, inner) | _ => None end) with
       | Some (k, inner) =>
-          let r := if k =? 0 then inner else if k =? 1 then Str key
+          let r := if (k =? 0) || (k =? 4) then inner else if k =? 1 then Str key
                    else if k =? 3 then Str [102; 117; 110; 99; 116; 105; 111; 110] (* typeof this.toJSON *)
                    else Undef in
-          str_walk fl rep plist f true key r
+          str_walk fl rep plist f true inarr key r
       | None =>
           (* 3: replacer function *)
-          let v1 := match rep with RFun id => rep_fun id key v | _ => v end in
+          let v1 := match rep with RFun id => rep_fun id inarr key v | _ => v end in
+          (* an object with a toJSON method that reaches this point (its method is not called
+             again) is a plain object: own property toJSON for the script-made ones, no own
+             property for a Date (k = 4, the method is inherited) *)
+          let v2 := match v1 with
+                    | ToJ k _ => Obj (if k =? 4 then [] else [([116; 111; 74; 83; 79; 78], Fun)])
+                    | _ => v1
+                    end in
           (* 4: unwrap *)
-          match v1 with
+          match v2 with
           | Null => DVal JNull
           | Bool b | WBool b => DVal (JBool b)
           | Str s | WStr s => DVal (JStr (if f_surr fl then sanitize s else s))
           | Num b d n | WNum b d n => num_tree fl b d n
           | Undef | Fun => DUndef
           | Cyc _ => DErr 6
-          | Arr l => seq_arr (map (fun kv => str_walk fl rep plist f false (fst kv) (snd kv)) (index_from 0 l))
+          | Arr l => seq_arr (map (fun kv => str_walk fl rep plist f false true (fst kv) (snd kv)) (index_from 0 l))
           | Obj m =>
               let ks := match plist with Some p => p | None => own_keys fl m end in
-              seq_obj (map (fun k => (k, str_walk fl rep plist f false k (js_lookup fl k m))) ks)
-          | ToJ _ _ =>
-              (* a plain object whose only own property, toJSON, is a function: every
-                 key K can name is undefined or a function (the replacer family maps
-                 functions to themselves) *)
-              DVal (JObj [])
+              seq_obj (map (fun k => (k, str_walk fl rep plist f false false k (js_lookup fl k m))) ks)
+          | ToJ _ _ => DVal (JObj [])   (* not reached: rewritten to Obj above *)
           end
       end
   end.
@@ -448,7 +463,7 @@ Inductive sres := SUndefined | SText (t : list Z) | SErr (cls : Z).
 
 Definition stringify (fl : flags) (v : js) (rep : replacer) (sp : space) : sres :=
   let plist := match rep with RList l => Some (plist_of fl l) | _ => None end in
-  match str_walk fl rep plist 60 false [] v with
+  match str_walk fl rep plist 60 false false [] v with
   | DUndef => SUndefined
   | DErr c => SErr c
   | DVal t => SText (print_fl fl (gap_of fl sp) [] (if f_sort fl then sort_tree t else t))
